@@ -309,7 +309,7 @@ def _run_vc(args):
     except ip.Unsupported as e:  # raised while a postcondition evaluated a (lazy) tensor element: outside the modelled subset
         out["unsupported"] = str(e)
     except Exception:
-        out["error"] = traceback.format_exc(limit=8)
+        out["error"] = traceback.format_exc(limit=-10)
     out["wall_ms"] = round((time.time() - t0) * 1000)
     return out
 
@@ -366,6 +366,8 @@ def run_vcs(ctx: core.Ctx, vcs: List[VC], text_by_clause: Optional[Dict[str, str
             for a in vc.assumptions:
                 ctx.assume(a)
             if r["error"]:
+                if os.environ.get("VERIF_SHOW"):
+                    print("ENGINE-ERROR %s\n%s" % (r["name"], r["error"]), file=sys.stderr)
                 c.status = "error"
                 problems.append("%s: engine error %s" % (r["name"], r["error"][-400:]))
                 ctx.errors.append(r["name"])
